@@ -43,7 +43,7 @@ void* init_reim_to_tnx_precomp(REIM_TO_TNX_PRECOMP* const res, uint32_t m, doubl
   // .......=========(1)|expo|sign  msbbits = log2ovh + 2 + 11 + 1
   uint64_t nbits = 50 - log2overhead;
   dblui64_t ovh_cst;
-  ovh_cst.d = 0.5 + (6<<log2overhead);
+  ovh_cst.d = 0.5 + (double)(UINT64_C(6) << log2overhead);
   res->add_cst = ovh_cst.d * divisor;
   res->mask_and = ((UINT64_C(1) << nbits) - 1);
   res->mask_or = ovh_cst.u & ((UINT64_C(-1)) << nbits);
